@@ -30,3 +30,83 @@ package eventlogger
 //@   requires b != nil && noLocksHeld() && wfGraphs(b)
 //@   ensures C02/reads-back: ok == (t in b.graphs) && (ok ==> n == b.graphs[t].successThreshold) && (!ok ==> n == 0)
 //@   ensures unlocked: noLocksHeld()
+
+// ---- registration options ----
+
+//@ pure validPolicy(p RegistrationPolicy) bool = p == AllowOverwrite || p == DenyOverwrite
+
+//@ functype Option(o) (err)
+//@   closedworld
+//@   requires o != nil && validPolicy(o.withPipelineRegistrationPolicy) && validPolicy(o.withNodeRegistrationPolicy)
+//@   assigns options.withPipelineRegistrationPolicy, options.withNodeRegistrationPolicy
+//@   ensures validPolicy(o.withPipelineRegistrationPolicy) && validPolicy(o.withNodeRegistrationPolicy)
+//@   ensures forall p *options :: p != o ==> p.withPipelineRegistrationPolicy == old(p.withPipelineRegistrationPolicy) && p.withNodeRegistrationPolicy == old(p.withNodeRegistrationPolicy)
+
+//@ func WithPipelineRegistrationPolicy$1(o) (err)
+//@   implements Option
+//@   ensures C07/valid-policy-stored: validPolicy(policy) ==> err == nil && o.withPipelineRegistrationPolicy == policy && o.withNodeRegistrationPolicy == old(o.withNodeRegistrationPolicy)
+//@   ensures C07/invalid-policy-rejected: !validPolicy(policy) ==> err != nil && o.withPipelineRegistrationPolicy == old(o.withPipelineRegistrationPolicy) && o.withNodeRegistrationPolicy == old(o.withNodeRegistrationPolicy)
+
+//@ func WithNodeRegistrationPolicy$1(o) (err)
+//@   implements Option
+//@   ensures C07/valid-policy-stored: validPolicy(policy) ==> err == nil && o.withNodeRegistrationPolicy == policy && o.withPipelineRegistrationPolicy == old(o.withPipelineRegistrationPolicy)
+//@   ensures C07/invalid-policy-rejected: !validPolicy(policy) ==> err != nil && o.withPipelineRegistrationPolicy == old(o.withPipelineRegistrationPolicy) && o.withNodeRegistrationPolicy == old(o.withNodeRegistrationPolicy)
+
+//@ func getOpts(opt) (opts, err)
+//@   assigns nothing
+//@   ensures C07/options-valid: err == nil ==> validPolicy(opts.withPipelineRegistrationPolicy) && validPolicy(opts.withNodeRegistrationPolicy)
+//@   ensures C07/default-allow: len(opt) == 0 ==> err == nil && opts.withPipelineRegistrationPolicy == AllowOverwrite && opts.withNodeRegistrationPolicy == AllowOverwrite
+//@   loop 1 invariant validPolicy(opts.withPipelineRegistrationPolicy) && validPolicy(opts.withNodeRegistrationPolicy) && (len(opt) == 0 ==> opts.withPipelineRegistrationPolicy == AllowOverwrite && opts.withNodeRegistrationPolicy == AllowOverwrite)
+
+// ---- node registry ----
+
+//@ pure wfNodes(b *Broker) bool = b.nodes != nil && !("" in b.nodes) && (forall i NodeID :: (i in b.nodes) ==> b.nodes[i] != nil && allocated(b.nodes[i]) && validPolicy(b.nodes[i].registrationPolicy) && b.nodes[i].referenceCount >= 0) && (forall i NodeID, j NodeID :: (i in b.nodes) && (j in b.nodes) && i != j ==> b.nodes[i] != b.nodes[j])
+
+//@ pure nodesUnchanged(b *Broker) bool = (forall i NodeID :: (i in b.nodes) == old(i in b.nodes) && b.nodes[i] == old(b.nodes[i])) && (forall u *nodeUsage :: old(allocated(u)) ==> u.node == old(u.node) && u.referenceCount == old(u.referenceCount) && u.registrationPolicy == old(u.registrationPolicy))
+
+//@ iface Closer.Close(ctx) (err)
+//@   requires C12/callback-free: cbfree()
+//@   assigns ctxdone
+
+//@ iface NodeUnwrapper.Unwrap() (n)
+//@   requires C12/callback-free: cbfree()
+//@   assigns ctxdone
+
+//@ func (*NodeController).Close(ctx) (err)
+//@   requires nc != nil
+//@   requires C12/callback-free: cbfree()
+//@   assigns ev, ctxdone
+//@   ensures C06/closes-at-most-once: calls("Closer.Close") <= old(calls("Closer.Close")) + 1
+//@   ensures C06/error-only-from-close: err != nil ==> calls("Closer.Close") == old(calls("Closer.Close")) + 1
+//@   loop 1 invariant calls("Closer.Close") == old(calls("Closer.Close"))
+
+//@ func (*Broker).RegisterNode(id, node, opt) (err)
+//@   requires b != nil && noLocksHeld() && wfNodes(b)
+//@   ensures C05+C07/failure-is-noop: err != nil ==> nodesUnchanged(b)
+//@   ensures C05/empty-id-rejected: id == "" ==> err != nil
+//@   ensures C07/deny-is-sticky: old(id in b.nodes) && old(b.nodes[id].registrationPolicy) == DenyOverwrite ==> err != nil
+//@   ensures C07/registered: err == nil ==> (id in b.nodes) && b.nodes[id].node == node && validPolicy(b.nodes[id].registrationPolicy) && (len(opt) == 0 ==> b.nodes[id].registrationPolicy == AllowOverwrite)
+//@   ensures C06/count-carried-over: err == nil ==> b.nodes[id].referenceCount == (old(id in b.nodes) ? old(b.nodes[id].referenceCount) : 0)
+//@   ensures C06+C07/others-untouched: (forall i NodeID :: i != id ==> (i in b.nodes) == old(i in b.nodes) && b.nodes[i] == old(b.nodes[i])) && (forall u *nodeUsage :: old(allocated(u)) ==> u.node == old(u.node) && u.referenceCount == old(u.referenceCount) && u.registrationPolicy == old(u.registrationPolicy))
+//@   ensures wf: wfNodes(b)
+//@   ensures unlocked: noLocksHeld()
+
+//@ func (*Broker).removeNode(ctx, id, force) (err)
+//@   requires b != nil && held(b.lock) == 2 && wfNodes(b)
+//@   assigns map:map[NodeID]*nodeUsage, nodeUsage.referenceCount, ev, ctxdone
+//@   ensures C05/not-found-is-noop: (id == "" || !old(id in b.nodes)) ==> err != nil && nodesUnchanged(b) && calls("Closer.Close") == old(calls("Closer.Close"))
+//@   ensures C06/in-use-refused: old(id in b.nodes) && old(b.nodes[id].referenceCount) > 0 && !force ==> err != nil && nodesUnchanged(b) && calls("Closer.Close") == old(calls("Closer.Close"))
+//@   ensures C06/removed-and-closed-once: id != "" && old(id in b.nodes) && old(b.nodes[id].referenceCount) <= 1 && (force || old(b.nodes[id].referenceCount) == 0) ==> !(id in b.nodes) && calls("Closer.Close") <= old(calls("Closer.Close")) + 1 && (err != nil ==> calls("Closer.Close") == old(calls("Closer.Close")) + 1)
+//@   ensures C06/forced-decrement: old(id in b.nodes) && old(b.nodes[id].referenceCount) > 1 && force ==> err == nil && (id in b.nodes) && b.nodes[id] == old(b.nodes[id]) && b.nodes[id].referenceCount == old(b.nodes[id].referenceCount) - 1 && calls("Closer.Close") == old(calls("Closer.Close"))
+//@   ensures C06/others-untouched: forall j NodeID :: j != id ==> (j in b.nodes) == old(j in b.nodes) && b.nodes[j] == old(b.nodes[j]) && (old(j in b.nodes) ==> b.nodes[j].referenceCount == old(b.nodes[j].referenceCount))
+//@   ensures still-locked: held(b.lock) == 2
+//@   ensures wf: wfNodes(b)
+
+//@ func (*Broker).RemoveNode(ctx, id) (err)
+//@   requires b != nil && noLocksHeld() && wfNodes(b)
+//@   ensures C05/failure-is-noop: err != nil && calls("Closer.Close") == old(calls("Closer.Close")) ==> nodesUnchanged(b)
+//@   ensures C06/in-use-refused: old(id in b.nodes) && old(b.nodes[id].referenceCount) > 0 ==> err != nil && nodesUnchanged(b) && calls("Closer.Close") == old(calls("Closer.Close"))
+//@   ensures C06/unused-removed: id != "" && old(id in b.nodes) && old(b.nodes[id].referenceCount) == 0 ==> !(id in b.nodes) && calls("Closer.Close") <= old(calls("Closer.Close")) + 1
+//@   ensures C06/others-untouched: forall j NodeID :: j != id ==> (j in b.nodes) == old(j in b.nodes) && b.nodes[j] == old(b.nodes[j]) && (old(j in b.nodes) ==> b.nodes[j].referenceCount == old(b.nodes[j].referenceCount))
+//@   ensures wf: wfNodes(b)
+//@   ensures unlocked: noLocksHeld()
